@@ -171,6 +171,32 @@ CLAIMED = {
              "circuits are compared node-for-node (in order) with what logic.py builds for widths 0..12 (quick) / 0..40.",
         note=TRUST,
         ref="§4 C13"),
+    "C15": dict(
+        technique="Lean 4 theorems at the statement level of the bench dialect (reader's API calls, writer's emitted statements) "
+                  "+ a Lean backtracking regex engine run on the regular expressions extracted from io.py, differential-tested "
+                  "against CPython re + exact reader/writer correspondence + simulation search",
+        text="Proof: `build_sem` (for every well-formed netlist, in any line order: exactly the declared inputs/outputs, every "
+             "gate net computes its gate function of the nets it names, every DFF is a dff blackbox between its D and Q nets), "
+             "`roundtrip` (reading back what the writer emits refines the original on every node, constants included), "
+             "`roundtrip_exact`, `write_rejects`. PARTIAL: the character level — that the four regular expressions extract "
+             "exactly those statements from a text, and the rendering of statements — is not a theorem: the regexes are "
+             "extracted from io.py on every run (`tables_regex` by rfl), executed by the Lean engine and compared with "
+             "CPython's `re` and with bench_to_circuit/circuit_to_bench on generated texts (blanks, tabs, case, line order).",
+        note=TRUST + " CPython `re` is modelled by CG/Regex.lean.",
+        ref="§4 C15"),
+    "C17": dict(
+        technique="Lean 4 verified checker: `supergatesOK` (decidable) proved sound AND complete w.r.t. the graph-theoretic "
+                  "statement; the driver evaluates it on the implementation's actual supergate list for every generated circuit; "
+                  "+ independent Python oracle and super-circuit simulation",
+        text="PARTIAL by design: no for-all-circuits theorem about the decomposition algorithm (dominator trees on a bidirected "
+             "copy of each cone, minimal cover) — it is not modelled. Proof: `supergatesOK_sound` / `supergatesOK_complete`: "
+             "for every circuit and every list, the checker accepts exactly when every supergate is a single-output induced "
+             "sub-circuit of the fan-in-limited circuit, the list is topologically ordered, covers every gate of the output "
+             "cones and no two inputs of a supergate share transitive fan-in. Each run validates the real tx.supergates output "
+             "with this checker (translation validation with a proved checker) and checks the filled super-circuit by "
+             "exhaustive simulation.",
+        note=TRUST + " Known finding K28 (NetworkXUnfeasible on some multi-output circuits).",
+        ref="§4 C17"),
 }
 
 NOT_YET = "check not built yet in this round (see DESIGN.md §4 for the plan); will be claimed when its Lean model and harness exist"
